@@ -1,8 +1,8 @@
-import Rcgen.Theorems.C09
-import Rcgen.Theorems.C01
+import Rcgen.Proofs.CrlDecode
 /-
   C08 — a CRL revokes exactly the listed certificates and says what was asked.
-  This file: the refusal rules and the shape of the list; time fields are C09's.
+  This file: the refusal rules, the shape of the list, and `crl_decodes_to_request`: the full
+  typed decode of the TBSCertList (assembled in Proofs/CrlDecode.lean); time fields are C09's.
 -/
 namespace Rcgen.Theorems.C08
 open Rcgen Rcgen.Model
@@ -77,6 +77,83 @@ theorem unspecified_eq_absent (s : Bytes) (t : DateTime) :
 /-- the invalidity date is always written by the GeneralizedTime writer -/
 theorem invalidity_date_generalized (dt : DateTime) :
     ∃ c, invalidityDateNode dt = .prim 0 24 c := ⟨_, rfl⟩
+
+/-- **a CRL says exactly what its parameters say.**  For every parameter set, issuer and hash
+    family: when the CRL is not refused and validation passes, strict DER decoding of the
+    to-be-signed bytes followed by the RFC 5280 §5 readers yields exactly the request — the
+    issuer name, both update instants (nextUpdate later than thisUpdate as encoded), the CRL
+    number, the authority key identifier as the configured digest of the issuer's
+    SubjectPublicKeyInfo, the issuing distribution point (URIs and scope flag) exactly when
+    requested and no other CRL extension, and one entry per revoked certificate, in order, with
+    that serial, that revocation instant, the reason code (absent ≡ unspecified) and the
+    invalidity date as GeneralizedTime, and no other entry extension.  Any number of entries,
+    serials and URIs of any length. -/
+theorem crl_decodes_to_request (i : Spec.CrlInputs)
+    (hn : crlNextUpdateInvalid i.p = false)
+    (hs : crlIssuerNotSigner i.issuer = false)
+    (hinv : crlInvalid i.p i.issuer = none)
+    (hnp : crlPanics i.p i.issuer = false)
+    (hsize : (encode (tbsCertList i.H i.p i.issuer)).length < 256 ^ 126) :
+    Spec.c08Clauses i (encode (tbsCertList i.H i.p i.issuer)) = [] :=
+  Proofs.CrlDecode.c08_clauses_hold i hn hs hinv hnp hsize
+
+/-- the typed record itself -/
+theorem crl_decodes_to_record (i : Spec.CrlInputs)
+    (hinv : crlInvalid i.p i.issuer = none)
+    (hnp : crlPanics i.p i.issuer = false)
+    (hsize : (encode (tbsCertList i.H i.p i.issuer)).length < 256 ^ 126) :
+    Spec.decodeTbsCrl (encode (tbsCertList i.H i.p i.issuer)) = some (Proofs.CrlDecode.modelCrl i) :=
+  Proofs.CrlDecode.tbsCrl_decodes i hinv hnp hsize
+
+/-- stated on the public entry point: whatever CRL `issueCrl` returns decodes to the request -/
+theorem issued_crl_decodes_to_request (i : Spec.CrlInputs) (sign : Signer) (t : Asn1)
+    (h : issueCrl i.H i.p i.issuer sign = .ok t)
+    (hsize : (encode (tbsCertList i.H i.p i.issuer)).length < 256 ^ 126) :
+    Spec.c08Clauses i (encode (tbsCertList i.H i.p i.issuer)) = [] := by
+  unfold issueCrl at h
+  split at h
+  · cases h
+  · rename_i h1
+    split at h
+    · cases h
+    · rename_i h2
+      cases hinv : crlInvalid i.p i.issuer with
+      | some e => simp [hinv] at h
+      | none =>
+        simp only [hinv] at h
+        split at h
+        · cases h
+        · rename_i h3
+          exact crl_decodes_to_request i (by simpa using h1) (by simpa using h2) hinv
+            (by simpa using h3) hsize
+
+/-- every time field of the CRL — thisUpdate, nextUpdate, each revocationDate — decodes to the
+    same instant in the RFC 5280 form (C09 on the whole artefact) -/
+theorem crl_time_fields_decode (i : Spec.CrlInputs)
+    (hinv : crlInvalid i.p i.issuer = none)
+    (hnp : crlPanics i.p i.issuer = false)
+    (hsize : (encode (tbsCertList i.H i.p i.issuer)).length < 256 ^ 126) :
+    Spec.c09CrlClauses i (encode (tbsCertList i.H i.p i.issuer)) = [] :=
+  Proofs.CrlDecode.c09_crl_clauses_hold i hinv hnp hsize
+
+/-! non-vacuity of `crl_decodes_to_request`: three entries (reason only, invalidity date only,
+    `unspecified` with a date), an issuing distribution point with a scope, dates in offsets -/
+def exCrl : Spec.CrlInputs :=
+  { H := ⟨fun _ => List.replicate 32 7, fun _ => List.replicate 48 7, fun _ => List.replicate 64 7⟩,
+    p := { thisUpdate := ⟨2024, 1, 1, 0, 0, 0, 5, 3600⟩, nextUpdate := ⟨2051, 1, 1, 0, 0, 0, 0, -7200⟩,
+           crlNumber := [0, 200], idp := some ⟨[[0x68]], some .caCertsOnly⟩,
+           revoked := [⟨[1], ⟨2023, 5, 5, 1, 2, 3, 0, 0⟩, some .keyCompromise, none⟩,
+                       ⟨[0, 255], ⟨1949, 5, 5, 1, 2, 3, 0, 0⟩, none, some ⟨2022, 1, 1, 0, 0, 0, 0, 0⟩⟩,
+                       ⟨[3], ⟨2023, 5, 5, 1, 2, 3, 0, 0⟩, some .unspecified, some ⟨2050, 1, 1, 0, 0, 0, 0, 0⟩⟩],
+           keyIdMethod := .sha512 },
+    issuer := { dn := (DistinguishedName.new.push .commonName (.utf8 [0x61])), keyIdMethod := .sha256,
+                keyUsages := [.crlSign], key := ⟨.ecdsaP256, [4, 1, 2]⟩ } }
+
+example : crlNextUpdateInvalid exCrl.p = false := by decide +kernel
+example : crlIssuerNotSigner exCrl.issuer = false := by decide
+example : crlInvalid exCrl.p exCrl.issuer = none := by decide +kernel
+example : crlPanics exCrl.p exCrl.issuer = false := by decide +kernel
+example : (encode (tbsCertList exCrl.H exCrl.p exCrl.issuer)).length < 256 ^ 126 := by decide +kernel
 
 /-! non-vacuity: thisUpdate = t+0.1 s, nextUpdate = t+0.9 s is refused -/
 example : crlNextUpdateInvalid
